@@ -1,8 +1,148 @@
 package sim
 
-import "github.com/blugelabs/bluge"
+import (
+	"context"
+	"fmt"
+	"sort"
+	"strings"
 
-// ReadExt is filled in by the C04 work: extended reads of a reader.
-func ReadExt(r *bluge.Reader) map[string]string { return nil }
+	"github.com/blugelabs/bluge"
+	"github.com/blugelabs/bluge/search"
+	"github.com/blugelabs/bluge/search/aggregations"
+)
 
-func diffExt(a, b map[string]string) string { return "" }
+func uidsOf(r *bluge.Reader, req bluge.SearchRequest) (string, *search.Bucket, error) {
+	it, err := r.Search(context.Background(), req)
+	if err != nil {
+		return "", nil, err
+	}
+	var us []string
+	for {
+		m, err := it.Next()
+		if err != nil {
+			return "", nil, err
+		}
+		if m == nil {
+			break
+		}
+		uid := ""
+		_ = m.VisitStoredFields(func(f string, v []byte) bool {
+			if f == "uid" {
+				uid = string(v)
+				return false
+			}
+			return true
+		})
+		us = append(us, uid)
+	}
+	return strings.Join(us, ","), it.Aggregations(), nil
+}
+
+// ReadExt performs the wider set of reads the reader-isolation oracle repeats
+// on a held reader: document values through a sorted top-N search and a terms
+// aggregation with a nested metric, a dictionary scan, phrase / boolean /
+// conjunction / disjunction / numeric-range queries (the optimised bitmap
+// paths included). The result maps a read's name to a canonical rendering.
+func ReadExt(r *bluge.Reader) map[string]string {
+	rv := map[string]string{}
+	put := func(name, val string, err error) {
+		if err != nil {
+			rv[name] = "ERROR " + err.Error()
+		} else {
+			rv[name] = val
+		}
+	}
+	// sorted top-N (document values of num, tag, uid)
+	top := bluge.NewTopNSearch(1000, bluge.NewMatchAllQuery()).SortBy([]string{"-num", "tag", "uid"})
+	top.AddAggregation("tags", func() search.Aggregation {
+		a := aggregations.NewTermsAggregation(search.Field("tag"), 10)
+		a.AddAggregation("sum", aggregations.Sum(search.Field("num")))
+		return a
+	}())
+	top.AddAggregation("min", aggregations.Min(search.Field("num")))
+	top.AddAggregation("max", aggregations.Max(search.Field("num")))
+	s, b, err := uidsOf(r, top)
+	put("topn-sorted", s, err)
+	if err == nil && b != nil {
+		var parts []string
+		parts = append(parts, fmt.Sprintf("count=%d", b.Count()))
+		if tc, ok := b.Aggregations()["tags"].(search.BucketCalculator); ok {
+			var bs []string
+			for _, tb := range tc.Buckets() {
+				sum := 0.0
+				if m, ok := tb.Aggregations()["sum"].(search.MetricCalculator); ok {
+					sum = m.Value()
+				}
+				bs = append(bs, fmt.Sprintf("%s:%d:%g", tb.Name(), tb.Count(), sum))
+			}
+			sort.Strings(bs)
+			parts = append(parts, strings.Join(bs, ";"))
+		}
+		for _, n := range []string{"min", "max"} {
+			if m, ok := b.Aggregations()[n].(search.MetricCalculator); ok {
+				parts = append(parts, fmt.Sprintf("%s=%g", n, m.Value()))
+			}
+		}
+		rv["aggregations"] = strings.Join(parts, " ")
+	}
+	all := func(q bluge.Query) (string, error) {
+		s, _, err := uidsOf(r, bluge.NewAllMatches(q))
+		if err != nil {
+			return "", err
+		}
+		us := strings.Split(s, ",")
+		sort.Strings(us)
+		return strings.Join(us, ","), nil
+	}
+	s, err = all(bluge.NewMatchPhraseQuery("quick fox").SetField("body"))
+	put("phrase", s, err)
+	s, err = all(bluge.NewBooleanQuery().AddMust(bluge.NewTermQuery("alpha").SetField("body")).AddMustNot(bluge.NewTermQuery("t1").SetField("tag")).AddShould(bluge.NewTermQuery("red").SetField("body")))
+	put("boolean", s, err)
+	s, err = all(bluge.NewBooleanQuery().AddMust(bluge.NewTermQuery("red").SetField("body"), bluge.NewTermQuery("blue").SetField("body")))
+	put("conjunction", s, err)
+	s, err = all(bluge.NewBooleanQuery().AddShould(bluge.NewTermQuery("fox").SetField("body"), bluge.NewTermQuery("dog").SetField("body"), bluge.NewTermQuery("t2").SetField("tag")))
+	put("disjunction", s, err)
+	s, err = all(bluge.NewNumericRangeInclusiveQuery(0, 10, true, true).SetField("num"))
+	put("numeric-range", s, err)
+	s, err = all(bluge.NewPrefixQuery("g").SetField("body"))
+	put("prefix", s, err)
+	// dictionary scan of the text field: the set of terms (counts are layout
+	// dependent but must not change for one reader)
+	di, err := r.DictionaryIterator("body", nil, nil, nil)
+	if err != nil {
+		put("dictionary", "", err)
+	} else {
+		var ts []string
+		for {
+			e, err := di.Next()
+			if err != nil {
+				put("dictionary", "", err)
+				break
+			}
+			if e == nil {
+				rv["dictionary"] = strings.Join(ts, ",")
+				break
+			}
+			ts = append(ts, fmt.Sprintf("%s/%d", e.Term(), e.Count()))
+		}
+		_ = di.Close()
+	}
+	return rv
+}
+
+func diffExt(a, b map[string]string) string {
+	var ks []string
+	for k := range a {
+		ks = append(ks, k)
+	}
+	sort.Strings(ks)
+	for _, k := range ks {
+		if a[k] != b[k] {
+			return fmt.Sprintf("%s answered %q at first and %q later", k, a[k], b[k])
+		}
+	}
+	if len(a) != len(b) {
+		return "the set of answered reads changed"
+	}
+	return ""
+}
